@@ -68,13 +68,17 @@ def scen_point(w):
             "kind=%s order=%s via=%s got=%s" % (kind, order, via, got))
 
 
-def scen_contains(w):
+def scen_contains(w, joint=1):
     """outer.containsRegion(inner) and p in inner  =>  p in outer (all four type pairs)."""
     ko = w.choose(2, "outer")
     ki = w.choose(2, "inner")
     # corner orderings: one ordering index shared by both operands (the per-ordering behaviour of
     # each class is already decided by scenario "point"; here 4 joint orderings instead of 16)
-    oo = io = w.choose(4, "order") if (ko == 0 or ki == 0) else 0
+    if joint:
+        oo = io = w.choose(4, "order") if (ko == 0 or ki == 0) else 0
+    else:
+        oo = w.choose(4, "oorder") if ko == 0 else 0
+        io = w.choose(4, "iorder") if ki == 0 else 0
     outer, o_or, _ = _mk_region(w, ko, "o", oo)
     inner, i_or, _ = _mk_region(w, ki, "i", io)
     px, py = w.real("px"), w.real("py")
@@ -105,6 +109,6 @@ def plan(tier):
     return [
         Scenario("point", scen_point, cover=["point-in", "point-out"],
                  nra_mode="oneshot", bounds={"parameters": "unbounded reals", "corner orderings": 4, "access paths": 3}),
-        Scenario("contains", scen_contains, cover=cov_c,
-                 nra_mode="oneshot", bounds={"parameters": "unbounded reals", "type pairs": 4, "corner orderings": "4 (joint)"}),
+        Scenario("contains", scen_contains, params={"joint": 1 if tier == "quick" else 0}, cover=cov_c,
+                 nra_mode="oneshot", bounds={"parameters": "unbounded reals", "type pairs": 4, "corner orderings": "4 joint (quick) / 4x4 (thorough)"}),
     ]
